@@ -15,11 +15,11 @@ func init() {
 	register(&Prop{
 		ID:    "C13",
 		Level: "exploration",
-		Rule: "exhaustive boundary grid: ~70 values (0, +-1, int32/int64 limits and neighbours, 2^53 neighbours, fractions, huge/tiny doubles, out-of-range json.Numbers) squared x 5 operators x 9 representation pairings (integer/decimal literal, float64 document value, json.Number document value), unary +/- on every value and over sequences with a non-numeric member at each position, identities -(-x)=x, x+y=y+x, x*y=y*x; random operand pairs near the boundaries. " +
+		Rule: "exhaustive boundary grid: ~70 values (0, +-1, int32/int64 limits and neighbours, 2^53 neighbours, fractions, huge/tiny doubles, out-of-range json.Numbers) squared x 5 operators x 9 representation pairings (integer/decimal literal, float64 document value, json.Number document value), unary +/- on every value and over sequences with a non-numeric member at each position, identities -(-x)=x, x+y=y+x, x*y=y*x; random operand pairs near the boundaries; every binary case is also asked through Exists, which must fail exactly when Query fails. " +
 			"Oracle: math/big exact arithmetic and correctly rounded IEEE results. Non-trivial: both operands non-zero; distinct by (operator, operands, representations)",
-		Run:    runC13,
-		Replay: replayC13,
-		MinExercised: map[string]int64{"int_exact": 5000, "float_ieee": 5000, "divzero": 500, "singleton": 100, "unary.map": 200, "unary.nonnumeric": 100, "identity.commute": 3000, "identity.dneg": 100},
+		Run:          runC13,
+		Replay:       replayC13,
+		MinExercised: map[string]int64{"int_exact": 5000, "float_ieee": 5000, "divzero": 500, "exists-mode": 5000, "singleton": 100, "unary.map": 200, "unary.nonnumeric": 100, "identity.commute": 3000, "identity.dneg": 100},
 		Assumptions: []string{
 			"integer operand = integer representation (int64, or a json.Number that parses as int64); integer quotients may be truncated or exact",
 			"for mixed integer/double operands both 'round operands then operate' and 'operate exactly then round' are accepted",
@@ -267,6 +267,18 @@ func checkArith(c *h.Ctx, op string, l, r operand) {
 	cs := h.Case{Kind: "arith", Path: ptxt, Extra: map[string]string{"op": op, "l": l.text, "lrepr": l.repr, "r": r.text, "rrepr": r.repr}}
 	a := arithOracle(op, l, r)
 	judgeArith(c, o, a, cs, h.F("op", op, "lrepr", l.repr, "rrepr", r.repr))
+	// the same operation asked only for existence: an error stays an error
+	// (division by zero is not "an item exists"), a value means true
+	e := h.Call("exists", p, doc, h.Opts{})
+	c.Eval(1)
+	switch {
+	case o.Class == h.Panic || e.Class == h.Panic || o.Class == h.Invalid:
+		c.Skip("exists-mode", "panic-or-invalid-is-C05")
+	case o.Class == h.OK && len(o.Items) == 1 && (e.Class != h.OK || !e.Bool), o.Class != h.OK && e.Class != o.Class:
+		c.Violate("exists-mode", h.F("op", op, "query", o.Class, "exists", e.Class), fmt.Sprintf("Query(%s) returned %s but Exists returned %s", ptxt, o.Summary(), e.Summary()), cs)
+	default:
+		c.Held("exists-mode")
+	}
 }
 
 func ratsText(rs []*big.Rat) string {
